@@ -1,7 +1,7 @@
 ENTRY = {
     "level": "proof",
     "families": [fam("C42", 6000, 300000)],
-    "gen_items": [],
+    "gen_items": ["workers_for"],
     "rule": "cases: 40% rendered cpulists of random sets (random range grouping, order, duplicates, ASCII whitespace, '+', leading zeros), "
             "40% junk token strings (overflowing numbers, reversed ranges, Unicode whitespace/digits), 20% workers_for points incl. 0 and usize::MAX; "
             "non-trivial = cpulist whose output has >= 2 ids, or workers_for with work,pool >= 1; distinct by sha256 of the canonical case",
